@@ -88,10 +88,6 @@ func LeafIndex(n, i int) uint64 {
 	return uint64(1)<<uint(Height(n)) | uint64(i)
 }
 
-// RootFromRightWitness recomputes the root of the whole list from the first i leaves (through their perfect subtrees) and
-// from the right part only through recursion: it is the definition the right witness has to reproduce, i.e. simply Root.
-// Kept for documentation: the oracle for witnesses is Root(list) itself.
-
 // SameSide reports whether all the given leaf positions lie on the same side of the root split of a tree with n leaves.
 func SameSide(n int, pos []int) bool {
 	if n < 2 || len(pos) == 0 {
